@@ -418,3 +418,18 @@ def check_selects(fn, defs, A, B, which):
 
 def whole_defs(fn, local):
     return [(bb, idx, kind, payload) for (bb, idx, dproj, kind, payload) in fn.defs.get(local, []) if not dproj]
+
+
+def variant_is(g, idx, nvariants=2):
+    """does guard g (an edge_relation dict with 'variant') establish that the discriminant equals idx?
+    Handles the `otherwise` edge of a switch that lists every other variant."""
+    if "variant" not in g:
+        return False
+    vals = g["variant"]
+    if vals == [str(idx)]:
+        return True
+    if vals == ["otherwise"]:
+        listed = set(g.get("all", []))
+        others = {str(i) for i in range(nvariants) if i != idx}
+        return listed == others
+    return False
